@@ -11,6 +11,16 @@ PROPS = {
     },
 }
 
+PROPS["C13"] = {
+    "suites": [("comp_codec", "gen_parse_cases")],
+    "rule": "every message kind: valid element, each attribute absent / replaced by each hostile value (wrong case, foreign vocabulary, Python-internal looking, "
+            "arbitrary) and by every vocabulary constant; message text perturbed; odd attribute names (self, children, value, ...); children of every part kind, "
+            "child text perturbed with hostile and number-like strings, child attributes dropped; unknown tags; plus random XML through expat; "
+            "a case is distinct by the element handed to from_xml",
+    "trusted_base": ["xml.etree/expat produce the element the model is given (the model starts at from_xml)", "Python object -> wire view (harness.msg_view)"],
+    "assumptions": ["Conformant (Spec/Msg.lean) is my reading of the INDI vocabulary: vocabulary-valued fields must be present and members; absent number text is allowed"],
+}
+
 MANIFEST_TEXT = {
     "C20": {
         "text": "Kernel-checked theorem C20 (lean/Indi/Properties/C20.lean): for every class table passing the decidable well-formedness check, and every two constructed "
@@ -20,5 +30,15 @@ MANIFEST_TEXT = {
         "note": "Trusted: Lean kernel + propext/Classical.choice/Quot.sound; tools/extract.py (constructor tables probed from live classes); harness.msg_view (object -> wire view); "
                 "the theorem speaks about messages built through registered constructors (Msg.Built).",
         "technique": "Lean 4 theorem (to_dict injectivity, induction over children) + regenerated class table + differential correspondence",
+    },
+    "C13": {
+        "text": "Kernel-checked theorem C13 (lean/Indi/Properties/C13.lean): for ALL XML elements x, if the model of IndiMessage.from_xml over the class table regenerated from /repo "
+                "returns a message, that message satisfies Spec.conformant (hand-written INDI vocabulary: state/perm/rule/switch/light/BLOB-enable members, required attributes present, "
+                "children of the required kind, number syntax). Generic theorem fromXml_conformant for any table passing the decidable check regConf; the instance on the generated table is "
+                "re-decided by the kernel on every run. Tied to the code by the probing translator and a differential correspondence over the quantifier's systematic perturbations and random XML, "
+                "with Spec.conformant evaluated in Lean on what the real parser returned as oracle.",
+        "note": "Trusted: Lean kernel + standard axioms; tools/extract.py probes constructors over a finite universe of values (strings outside it are covered by the correspondence only); "
+                "expat/ElementTree are not modelled here (the model starts from the parsed element); number recogniser pinned to the regex literals (theorem number_regexps_pinned).",
+        "technique": "Lean 4 generic theorem over class tables + decide +kernel instance on the regenerated table + differential correspondence",
     },
 }
